@@ -265,6 +265,11 @@ def _tensors(tier, seed):
                         if sc and pat != 'gen':
                             continue
                         out.append(dict(shape=sh, ranks=rk, pat=pat, scale=sc, seed=seed))
+    # strongly rectangular unfoldings and longer trains (size-dependent code paths)
+    for sh, rk in (([2, 150], [1, 2, 1]), ([150, 2], [1, 2, 1]), ([3, 5, 6, 7], [1, 3, 4, 3, 1]), ([4, 4, 4, 4, 4], [1, 2, 3, 3, 2, 1]),
+                   ([2] * 8, [1, 2, 3, 3, 3, 3, 2, 2, 1]), ([1, 40, 1], [1, 3, 3, 1])):
+        for pat in ('gen', 'graded'):
+            out.append(dict(shape=sh, ranks=rk, pat=pat, scale=0, seed=seed))
     # global scale on a few tensors in quick as well
     if tier == 'quick':
         for sc in (-20, 20):
@@ -290,15 +295,15 @@ def _add_many(tier, seed):
 
 def strata(tier, seed):
     ts = _tensors(tier, seed)
-    small = [t for t in ts if len(t['shape']) <= 3]
-    big = [t for t in ts if len(t['shape']) > 3]
+    small = [t for t in ts if len(t['shape']) <= 3 and max(t['shape']) <= 5]
+    big = [t for t in ts if not (len(t['shape']) <= 3 and max(t['shape']) <= 5)]
     if tier == 'thorough':
         small = [dict(t, bisect=True) for t in small]
     else:
         small = [dict(t, bisect=(len(t['shape']) == 2 or t['pat'] == 'gen')) for t in small]
     yield Stratum('truncate d<=3', small, 'tensor', size=len(small), chunk=4,
                   bounds={'d': [2, 3], 'flags': 4, 'caps': '1..rmax+1, 1e12', 'thresholds': 'all breakpoints +- delta, bisected'})
-    yield Stratum('truncate d=4', big, 'tensor', size=len(big), chunk=4, bounds={'d': [4]})
+    yield Stratum('truncate d>=4 and wide shapes', big, 'tensor', size=len(big), chunk=4, bounds={'d': [4, 8], 'wide': '[2,150], [150,2], [3,5,6,7], [4]^5, [2]^8, [1,40,1]'})
     am = _add_many(tier, seed)
     yield Stratum('add_many', am, 'add_many', size=len(am), chunk=8,
                   bounds={'list length': '1..%d' % (4 if tier == 'quick' else 5), 'items': ['T', 2, -0.5]})
